@@ -19,7 +19,8 @@ LEVEL_TEXT = ('Static decision of the structural necessary conditions: on every 
               'completely recorded before the next objective call starts (first iteration included); no routine of the evaluation chain is '
               'handed as a callable value to an iterator-consuming callable (map, filter, key=...); the stop '
               'notification of the shipped listeners never formats None with a format specification; nothing between the '
-              'handler and the return reports through the warnings machinery or ends the process.')
+              'handler and the return reports through the warnings machinery or ends the process; a context manager of the library '
+              'around the objective call returns None / False from __exit__ on every path.')
 EXPLANATION = ('The solve driver is explored with the chain down to the Problem.Calculate call site inlined and an '
                'exceptional continuation forked at that call (exception type unknown: a handler narrower than '
                'BaseException lets a copy of the path propagate). Effects before the call are classified from the '
@@ -442,6 +443,98 @@ def _none_into_format(p) -> list:
     return out
 
 
+def with_blocks_around_objective(ctx: Ctx):
+    """(function, With node) for every `with` statement on the global search path whose body leads to the objective
+    call (the chain: solve driver -> ... -> task wrapper -> Problem.Calculate)."""
+    roles = C.roles_of(ctx)
+    tw = roles.task_wrapper
+    twq = roles.fq(tw)
+    pcs = {roles.fq(p) for p in roles.problem_calcs}
+    out = []
+    for q in sorted(roles.reach(roles.solve_driver)):
+        f = ctx.ix.funcs.get(q)
+        if f is None or f.kind != 'function':
+            continue
+        if not (roles.in_tw(f) or twq in roles.reach(f)):
+            continue
+        for nd in ast.walk(f.node):
+            if not isinstance(nd, (ast.With, ast.AsyncWith)):
+                continue
+            leads = False
+            for b in nd.body:
+                for c in ast.walk(b):
+                    if isinstance(c, ast.Call):
+                        for g in ctx.pta.internal_callees(f, c):
+                            gq = roles.fq(g)
+                            if gq in pcs or roles.in_tw(g) or twq in roles.reach(g):
+                                leads = True
+            if leads:
+                out.append((f, nd))
+    return out
+
+
+SUPPRESSING_EXT = {'contextlib.suppress': 'it swallows the listed exceptions',
+                   'contextlib.ExitStack': 'its registered exit callbacks can swallow the exception'}
+
+
+def r16_8(ctx: Ctx):
+    """A `with` block around the objective call is part of the containment: its __exit__ sees the exception first.  A
+    context manager of the library whose __exit__ returns a true value swallows every exception of the objective -
+    KeyboardInterrupt included - and the iteration carries on with a point that was never evaluated."""
+    rid = 'R16.8'
+    ctx.rule(rid, 'context managers around the objective call do not swallow its exception: __exit__ of a library class '
+                  'returns None / False on every path; contextlib.suppress is not used there')
+    n = 0
+    ex = ctx.explorer(raw=True, unroll=1, max_paths=2000)
+    try:
+        blocks = with_blocks_around_objective(ctx)
+    except RoleMissing as e:
+        ctx.note(f'{rid}: not applied ({e}); the role rules report it')
+        return
+    for f, nd in blocks:
+        for item in nd.items:
+            n += 1
+            ce = item.context_expr
+            objs = ctx.pta.expr_pts(f, ce)
+            for o in sorted(objs, key=lambda o_: o_.describe()):
+                if o.kind in ('inst', 'ext_inst') and o.cls is not None:
+                    exi = o.cls.lookup('__exit__')
+                    if exi is None:
+                        continue
+                    bad = None
+                    for p in ex.explore(exi):
+                        if p.outcome != 'return' or p.value is None:
+                            continue
+                        v = p.value
+                        k = key_of(v) if isinstance(v, RF) else None
+                        if k in (NONE, FALSE):
+                            continue
+                        c = v.const_value() if isinstance(v, RF) else None
+                        if c is not None and c == 0:
+                            continue
+                        a = v.single_atom() if isinstance(v, RF) else None
+                        if isinstance(a, tuple) and a[0] in ('const',) and a[1] is False:
+                            continue
+                        bad = v
+                        break
+                    ctx.check(bad is None, rid, exi.short, exi.loc(),
+                              f'{exi.short} returns None / False on every path',
+                              f'{exi.short} (entered by `with {ast.unparse(ce)[:40]}` around the objective call in '
+                              f'{f.short}) can return {C.fmt(bad) if bad is not None else ""}: a true value makes the '
+                              f'`with` statement swallow whatever the objective raised, the failed point is recorded '
+                              f'as a trial and the search goes on', key=f'{rid}::{exi.short}::returns-value')
+            if isinstance(ce, ast.Call):
+                for d in ctx.pta.ext_callees(f, ce):
+                    if d in SUPPRESSING_EXT:
+                        ctx.fail(rid, f.short, f.loc(nd),
+                                 f'`with {ast.unparse(ce)[:50]}` encloses the objective call: {SUPPRESSING_EXT[d]}, so a '
+                                 f'failed evaluation is recorded as a trial', key=f'{rid}::{f.short}::{d}')
+    ctx.analysed[f'{rid}_with_items_around_objective'] = n
+    if not any(x.rule == rid for x in ctx.findings):
+        ctx.ok(rid, 'evaluation chain', f'{n} context managers enclose the objective call: none can swallow its exception',
+               'iOpt/method')
+
+
 def r16_6(ctx: Ctx):
     """After the handler Solve notifies the listeners (outside any try): a shipped listener that raises there turns
     the contained failure into an exception of Solve.  Decided for one structural cause: a value that is None on the
@@ -487,6 +580,8 @@ def r16_6(ctx: Ctx):
 
 
 def check(ctx: Ctx):
+    if C.want(ctx, 'R16.8'):
+        r16_8(ctx)
     if C.want(ctx, 'R16.6'):
         r16_6(ctx)
     if C.want(ctx, 'R16.5'):
